@@ -402,6 +402,7 @@ nni_aio_start(nni_aio *aio, nni_aio_cancel_fn cancel, void *data)
 		aio->a_abort     = false;
 		aio->a_expire_ok = false;
 		aio->a_count     = 0;
+		aio->a_result    = aio->a_abort_result;
 		NNI_ASSERT(aio->a_result != NNG_OK);
 		nni_mtx_unlock(&eq->eq_mtx);
 		nni_task_dispatch(&aio->a_task);
@@ -450,8 +451,10 @@ nni_aio_abort(nni_aio *aio, nng_err rv)
 		if (fn == NULL) {
 			// We haven't been scheduled yet,
 			// so make sure that schedule will abort.
-			aio->a_abort  = true;
-			aio->a_result = rv;
+			// (We must not touch a_result here, as it may hold the
+			// result of an operation that already completed.)
+			aio->a_abort        = true;
+			aio->a_abort_result = rv;
 		}
 		nni_mtx_unlock(&eq->eq_mtx);
 
